@@ -3,12 +3,12 @@
 package command
 
 import (
+	"context"
 	"encoding/hex"
 	"encoding/json"
 	"fmt"
 	"os"
 	"os/exec"
-	"context"
 	"sort"
 	"strings"
 	"testing"
@@ -26,13 +26,13 @@ import (
 // Frames are injected on the far end of the veth pair (or written into the tun device) as reactions to probes.
 
 type c03nsCase struct {
-	Cmd    string     `json:"command"`
-	Tun    bool       `json:"through_tun_device"`
+	Cmd    string           `json:"command"`
+	Tun    bool             `json:"through_tun_device"`
 	Ports  []gram.PortRange `json:"ports,omitempty"`
-	Bits   int        `json:"prefix_bits"`
-	Events []c03Event `json:"traffic"`
-	Late   bool       `json:"last_reply_late_within_exit_delay"`
-	Rate   string     `json:"rate,omitempty"` // stretches the scan: a long quiet phase before the only reply
+	Bits   int              `json:"prefix_bits"`
+	Events []c03Event       `json:"traffic"`
+	Late   bool             `json:"last_reply_late_within_exit_delay"`
+	Rate   string           `json:"rate,omitempty"` // stretches the scan: a long quiet phase before the only reply
 }
 
 const (
